@@ -1,10 +1,10 @@
 #!/bin/bash
 # usage: tools_store_seed.sh <Cxx> <mN> "<needs>" "<caught|missed: detail>"
 pid=$1; m=$2; needs=$3; result=$4
-d=/verif/seeded/$pid-$m; mkdir -p $d
-cp /tmp/mut/out/$pid/$m.diff $d/patch.diff
-rm -rf $d/demo; cp -r /tmp/mut/out/$pid/${m}_demo $d/demo; rm -f $d/demo/go.sum
-cp /tmp/mut/out/$pid/$m.md $d/notes.md
+d=/verif/seeded/$pid-${SEEDTAG:-}$m; mkdir -p $d
+cp ${MUTBASE:-/tmp/mut}/out/$pid/$m.diff $d/patch.diff
+rm -rf $d/demo; cp -r ${MUTBASE:-/tmp/mut}/out/$pid/${m}_demo $d/demo; rm -f $d/demo/go.sum
+cp ${MUTBASE:-/tmp/mut}/out/$pid/$m.md $d/notes.md
 python3 - "$pid" "$m" "$needs" "$result" <<'PY'
 import json,sys
 pid,m,needs,result=sys.argv[1:5]
@@ -12,6 +12,6 @@ json.dump(dict(property=pid, patch="patch.diff", demo="demo/ (scratch module; re
   needs_to_manifest=needs, origin="independent sub-agent given only the property text and a scratch worktree of /repo",
   confirmed=["go test ./... (248-test suite) passes with the change", "demo fails with the change", "demo passes without it"],
   check_result=result, how_run="git -C /repo apply seeded/%s-%s/patch.diff; ./check %s; git -C /repo checkout -- ." % (pid,m,pid)),
-  open("/verif/seeded/%s-%s/meta.json"%(pid,m),"w"), indent=1)
+  open("/verif/seeded/%s-%s%s/meta.json"%(pid,__import__('os').environ.get('SEEDTAG',''),m),"w"), indent=1)
 PY
 echo stored $d
